@@ -43,6 +43,69 @@ print(json.dumps({k: joblib.hash(v) for k, v in vals.items()}))
 '''
 
 
+# discrimination over a recursive universe of builtin scalars and containers (no aliased sub-objects, no -0.0 / nan): for ALL pairs,
+# equal digests  <=>  equal type-aware canonical form ("values that differ in content or in type get different digests"; 1, 1.0, True;
+# 'a', b'a'; list / tuple; set / frozenset with the SAME members; any differing leaf)
+PAIRS = r'''
+import itertools, json, sys
+import joblib
+def leaves():
+    return [0, 1, 2, 0.0, 1.0, True, False, None, "", "a", "1", b"", b"a", b"1"]
+def hashable_leaves():
+    return leaves()
+def canon(v):
+    t = type(v).__name__
+    if isinstance(v, (list, tuple)):
+        return (t, tuple(canon(x) for x in v))
+    if isinstance(v, (set, frozenset)):
+        return (t, tuple(sorted((canon(x) for x in v), key=repr)))
+    if isinstance(v, dict):
+        return (t, tuple(sorted(((canon(k), canon(x)) for k, x in v.items()), key=repr)))
+    return (t, repr(v))
+def level(elems, hashables):
+    out = []
+    small = list(itertools.chain.from_iterable(itertools.combinations(range(len(elems)), n) for n in (0, 1, 2)))
+    for idx in small:
+        xs = [elems[i]() for i in idx]
+        out.append(lambda idx=idx: [elems[i]() for i in idx])
+        out.append(lambda idx=idx: tuple(elems[i]() for i in idx))
+    smallh = list(itertools.chain.from_iterable(itertools.combinations(range(len(hashables)), n) for n in (0, 1, 2)))
+    for idx in smallh:
+        out.append(lambda idx=idx: set(hashables[i]() for i in idx))
+        out.append(lambda idx=idx: frozenset(hashables[i]() for i in idx))
+        out.append(lambda idx=idx: {hashables[i](): j for j, i in enumerate(idx)})
+        out.append(lambda idx=idx: {hashables[i](): "v" for i in idx})
+    return out
+L0 = [(lambda v=v: v) for v in leaves()]
+L1 = level(L0, L0)
+pick = L1[:: max(1, len(L1) // 40)]                       # a spread of first-level containers to nest once more
+pickh = [f for f in pick if isinstance(f(), (tuple, frozenset))]
+L2 = level(L0[:4] + pick[:10], L0[:3] + pickh[:6])
+universe = [f() for f in L0 + L1 + L2]
+digests = {}
+for hn in ("md5", "sha1"):
+    seen = {}
+    bad = None
+    for v in universe:
+        c, h = canon(v), joblib.hash(v, hash_name=hn)
+        if h in seen and seen[h][0] != c:
+            bad = [repr(seen[h][1]), repr(v)]
+            break
+        seen.setdefault(h, (c, v))
+    if bad is None:
+        byc = {}
+        for h, (c, v) in seen.items():
+            if c in byc:
+                bad = ["same value, two digests", repr(v)]
+                break
+            byc[c] = h
+    if bad:
+        print(json.dumps(dict(ok=False, hash_name=hn, pair=bad, n=len(universe))))
+        sys.exit(0)
+print(json.dumps(dict(ok=True, n=len(universe), pairs=len(universe) * (len(universe) - 1) // 2)))
+'''
+
+
 # history independence: the digest of a value does not depend on what was hashed earlier in the same process
 HISTORY = r'''
 import json, sys
@@ -101,6 +164,17 @@ def run(seed, order):
     return json.loads(out.stdout.strip().splitlines()[-1])
 
 
+def pairs_only():
+    pr = subprocess.run([sys.executable, "-c", PAIRS], capture_output=True, text=True, timeout=600)
+    if pr.returncode != 0:
+        raise RuntimeError(pr.stderr[-800:])
+    res = json.loads(pr.stdout.strip().splitlines()[-1])
+    if not res["ok"]:
+        return dict(violation=True, cases=res["n"], what="two values that differ in content or type get the same %s digest (or one value two): %s" % (res["hash_name"], " / ".join(res["pair"])),
+                    witness=res["pair"])
+    return dict(violation=False, cases=res["pairs"])
+
+
 def main(nseeds):
     cases = 0
     ref = run(0, 0)
@@ -135,6 +209,14 @@ def main(nseeds):
     pr = subprocess.run([sys.executable, "-c", probe], capture_output=True, text=True, timeout=120)
     coll = json.loads(pr.stdout.strip().splitlines()[-1]) if pr.returncode == 0 else [False, False]
     known["K14"] = ("hash({1, 'a'}) == hash({hash(1), hash('a')}): %r; same for dict keys: %r" % tuple(coll)) if any(coll) else False
+    pr = subprocess.run([sys.executable, "-c", PAIRS], capture_output=True, text=True, timeout=600)
+    if pr.returncode != 0:
+        raise RuntimeError(pr.stderr[-800:])
+    res = json.loads(pr.stdout.strip().splitlines()[-1])
+    cases += res.get("pairs", res["n"])
+    if not res["ok"]:
+        return dict(violation=True, cases=cases, what="two values that differ in content or type get the same %s digest (or one value two): %s" % (res["hash_name"], " / ".join(res["pair"])),
+                    witness=res["pair"], known=known)
     cases, bad = history(cases)
     if bad:
         bad["known"] = known
@@ -144,7 +226,7 @@ def main(nseeds):
 
 if __name__ == "__main__":
     try:
-        out = main(int(sys.argv[1]))
+        out = pairs_only() if sys.argv[1] == "pairs" else main(int(sys.argv[1]))
     except Exception as e:
         out = dict(violation=True, cases=0, what="harness error %r" % (e,), witness=None)
     print(json.dumps(out))
